@@ -745,6 +745,12 @@ func (c *HttpClient) parseIPCStream(raw *bytes.Reader, expected *arrow.Schema, t
 	}
 	defer reader.Release()
 	if expected != nil && !clientSchemasEqual(reader.Schema(), expected) {
+		// Servers write the error envelope of a failed stream init or a refused
+		// continuation under the empty schema, so an EXCEPTION batch must win
+		// over the mismatch; anything else under an undeclared schema is drift.
+		if rpcErr := exceptionInStream(reader); rpcErr != nil {
+			return nil, rpcErr
+		}
 		return nil, &RpcError{Type: "TypeError", Message: fmt.Sprintf("response schema mismatch: expected %s, got %s", expected, reader.Schema())}
 	}
 	parsed := &parsedClientStream{}
@@ -788,6 +794,18 @@ func (c *HttpClient) parseIPCStream(raw *bytes.Reader, expected *arrow.Schema, t
 		return nil, &RpcError{Type: "ProtocolError", Message: fmt.Sprintf("read Arrow IPC response batch: %v", err)}
 	}
 	return parsed, nil
+}
+
+// exceptionInStream returns the first EXCEPTION envelope left in reader, or nil.
+func exceptionInStream(reader *ipc.Reader) *RpcError {
+	for reader.Next() {
+		record := reader.RecordBatch()
+		metadata := recordMetadata(record)
+		if record.NumRows() == 0 && metadata[MetaLogLevel] == string(LogException) {
+			return rpcErrorFromMetadata(metadata)
+		}
+	}
+	return nil
 }
 
 func clientSchemasEqual(left, right *arrow.Schema) bool {
